@@ -11,7 +11,7 @@ THEOREMS = ["C08_delay_encoding", "C08_no_overflow", "C08_no_indeterminate_byte"
             "C08_utf8_decode_encode", "C08_utf8_valid_tag", "C08_utf8_decoder_scalars", "C08_gd3_renders_tag",
             # whole songs: Platform::vgm_export + MD_Driver
             "C08_invalid_tag_range_error", "C08_md_export_hyps", "C08_full_partial", "C08_pcm_windows_are_samples",
-            "C08_pcm_offset_counterexample", "C08_example_pcm_bank", "C08_example_pcm_ops", "mdPokes_eq"]
+            "C08_full_for_reachable_banks", "C08_pcm_offset_counterexample", "C08_example_pcm_bank", "C08_example_pcm_ops", "mdPokes_eq"]
 LEVEL = "proof"
 STREAM = "vgmw.ops+vgmsong+c08song"
 CHUNK = 40
